@@ -6,7 +6,9 @@ binding contexts; and what the process will do: exit code, a class per output fi
 fresh names, context file = the task's contexts, four empty output files, cwd and environment), ExecStart (what
 the process sees), ExecExit (outputs written through the environment variables), Parse (non-zero exit; metrics,
 admission, conversion parsed in this order; patch read), Apply (patch, metrics, admission response, conversion
-response; stop at the first error), Cleanup. Executions of two queues interleave at step granularity and share the
+response; stop at the first error), Cleanup; PrepareFail: the i-th temp file cannot be created (hooks whose relative
+path is 189 / 190 / 193 characters long make the name of the conversion-response / admission-response / context file
+exceed NAME_MAX) - the files created so far are removed, the execution fails without a process. Executions of two queues interleave at step granularity and share the
 temp directory. Invariants: EnvContract, ContextsExact, FreshNames, ResultRule, NoLeftovers, FilesStable
 (+ ScheduleFaithful for the exported single schedule). The reference `Expected(plan)` is a function of the plan
 only (status, outputs that must / must not be applied), the machine computes the same from the files.
@@ -30,14 +32,18 @@ Success every valid output is visible (object on the cluster, metric in the hook
 conversion response in the task properties with the content the hook wrote); nothing is visible from an output
 that was not valid (malformed: not even the leading complete document/line of a truncated file); after the handler
 returned none of the execution's files exists and, when all executions ended, the temp directory is empty; the
-files of a blocked process survive the end of the other execution. Soft (DIVERGENCE note): exact set of applied
+files of a blocked process survive the end of the other execution; after a failed Prepare the task fails and nothing
+of this execution is left in the temp directory (defect found here: C12/leftover/prepare-failed/file-N, fix proposed in
+tools/proposed_fixes/C12-tmp-files-left-when-prepare-fails.diff; the spec models the fixed code, MC_asis_prepare_leak.cfg
+the code as it was). Soft (DIVERGENCE note): exact set of applied
 outputs on failing runs (order of parsing/applying), the undocumented ADMISSION_RESPONSE_PATH alias.
 
 Excluded from the domain, with reasons: trailing data after a complete admission/conversion response (the decoder
 reads one document; DESIGN.md section 4 lists this as unspecified) - "truncated" for these two files is one cut
 document; the JSON document `null` (encoding/json treats it as "no value": an admission response file holding
 `null` yields allowed=false, i.e. fail closed; the statement's "wrong type" is taken as array / string / wrongly
-typed field); failures of the file system while preparing the files (not in the quantifier); allowFailure tasks
+typed field); failures of the file system other than a refused file name (disk full, permissions: cannot be provoked per
+execution); allowFailure tasks
 (C04); combination of queued tasks (C07); the rendering details of contexts (C09) - the comparison projects
 binding, type, watchEvent and object name; what an unappliable patch leaves behind (C13) and batch validation of
 metrics (C16) - for "unappliable" only the failure of the execution is demanded.
@@ -81,6 +87,8 @@ def model_checks(ctx):
     muts = MUTS if not ctx.quick() else [MUTS[ctx.seed % len(MUTS)], MUTS[(ctx.seed + 3) % len(MUTS)]]
     for cfgm, inv in muts:
         vlib.tlc(ctx, SPEC, "HookRun", cfgm, timeout=300, expect_violation=inv, workers=2)
+    # the as-it-was model of Hook.Run (removal deferred only after all five files exist) violates NoLeftovers
+    vlib.tlc(ctx, SPEC, "HookRun", "MC_asis_prepare_leak.cfg", timeout=300, expect_violation="NoLeftovers", workers=2)
     ctx.log("TLC: mutated machines %s violate %s as expected" % ([m[0][7:-4] for m in muts], [m[1] for m in muts]))
     return singles, tables[0]
 
@@ -92,7 +100,10 @@ def select_singles(ctx, singles, rng):
     if not ctx.quick():
         return singles
     groups = {}
+    always = [s for s in singles if s["prepfail"] > 0]          # the hooks whose temp files cannot all be created
     for s in singles:
+        if s["prepfail"] > 0:
+            continue
         groups.setdefault((s["exit"], tuple(s["out"][k] for k in OUTS)), []).append(s)
     core, rest = [], []
     for key in sorted(groups):
@@ -108,7 +119,7 @@ def select_singles(ctx, singles, rng):
         else:
             rest.append(variants[0])
     rng.shuffle(rest)
-    return core + rest[:max(0, 340 - len(core))]
+    return always + core + rest[:max(0, 340 - len(core))]
 
 
 def gen_pairs(ctx, tables, num, level):
@@ -127,7 +138,7 @@ def gen_pairs(ctx, tables, num, level):
             execs[e] = {"hook": p["hook"], "cwd": tables["dirs"][p["hook"]], "queue": p["queue"], "exit": p["exit"], "out": p["out"],
                         "ctxs": [tables["ctxdesc"][c] for c in p["ctxs"]],
                         "status": p["expect"]["status"], "must": p["expect"]["must"], "mustnot": p["expect"]["mustnot"],
-                        "applied": last["res"][e]["applied"], "stage": last["res"][e]["stage"]}
+                        "applied": last["res"][e]["applied"], "stage": last["res"][e]["stage"], "prepfail": tables["prepfail"][p["hook"]]}
             if last["res"][e]["status"] != p["expect"]["status"]:
                 raise Infra("behaviour %s: machine and reference disagree" % f)
         steps = [{"act": s["act"], "live": s["obs"]["live"], "gone": s["obs"]["gone"]} for s in sts[1:]]
@@ -142,7 +153,7 @@ def check_c12(ctx):
     singles, tables = model_checks(ctx)
     cases = []
     for s in select_singles(ctx, singles, rng):
-        x = {k: s[k] for k in ("hook", "cwd", "queue", "exit", "out", "ctxs", "status", "must", "mustnot", "applied", "stage")}
+        x = {k: s[k] for k in ("hook", "cwd", "queue", "exit", "out", "ctxs", "status", "must", "mustnot", "applied", "stage", "prepfail")}
         cases.append({"kind": "single", "envvars": s["envvars"], "execs": {"e1": x}, "steps": s["steps"]})
     n_single = len(cases)
     npairs = ctx.pick(36, 400)
@@ -226,7 +237,7 @@ MANIFEST = {
              "freshness across all executions of the run, task status, visible effects (cluster object, hook metric, admission/conversion response in the "
              "task properties) and the temp directory after every outcome.",
         note="Classes per file: empty, valid, truncated, wrong type (array / string / wrongly typed field), plus 'cannot be applied' for patch and metrics. "
-             "Excluded: trailing data after a complete response document, the JSON document null, file-system faults while preparing the files, allowFailure. "
+             "A failing Prepare is provoked with hook paths of 189/190/193 characters (temp file name over NAME_MAX). Excluded: trailing data after a complete response document, the JSON document null, other file-system faults, allowFailure. "
              "Prepare/Parse/Apply are not held separately in the real run (no yield point); concurrency is controlled at process start, process end and "
              "handler return. Quick tier replays a structured + seeded subset of the 4 800 single plans, thorough all of them.",
         technique="TLA+ spec + TLC exhaustive check (incl. mutated machines); TLC-enumerated cases and simulated two-execution behaviours replayed on the real operator",
